@@ -662,7 +662,9 @@ def _c14_chunk(arg):
                             ('rotate', lambda A: A[1:] + A[:1]),
                             ('self-assign', lambda A: A),
                             ('reverse-in-place', lambda A: A[::-1]),
-                            ('pop-in-place', lambda A: A[:len(A) - 1])]
+                            ('pop-in-place', lambda A: A[:len(A) - 1]),
+                            ('pop-first-in-place', lambda A: A[1:]),
+                            ('pop-index-in-place', lambda A: A[:len(A) // 2] + A[len(A) // 2 + 1:])]
                 name, fn = rng.choice(variants)
                 r.saw((src, k, 'args', name))
                 r.count('op:args-' + name)
@@ -679,6 +681,14 @@ def _c14_chunk(arg):
                 elif name == 'pop-in-place':
                     own = node.args
                     own.pop()
+                    node.args = own
+                elif name == 'pop-first-in-place':
+                    own = node.args
+                    own.pop(0)
+                    node.args = own
+                elif name == 'pop-index-in-place':
+                    own = node.args
+                    own.pop(len(own) // 2)
                     node.args = own
                 else:
                     na = D.TexArgs(newgroups)
